@@ -304,7 +304,40 @@ def run_candidate(c):
         kind = c["kind"]
         obs = {}
         bad = []
-        if kind == "golden":
+        if kind == "lsp_vs_check":
+            # C11's own oracle: after every didOpen / didChange the diagnostics published for the notified document are those
+            # `ironplcc check` reports for that document on the CURRENT contents of all documents (code, line, column)
+            names = []
+            steps = []
+            for nm, text in c["history"]:
+                uri = "file://" + os.path.join(d, nm)
+                steps.append({("open" if nm not in names else "change"): [uri, text, len(steps) + 1]})
+                if nm not in names:
+                    names.append(nm)
+            out = lsp_session(binp, steps, d)
+            out = [o for o in out if "server_exit" not in o and "error" not in o]
+            cur = {}
+            obs = {"steps": []}
+            if len(out) < len(steps):
+                bad.append("the server answered %d of %d notifications (it died or timed out)" % (len(out), len(steps)))
+            for i, ((nm, text), o) in enumerate(zip(c["history"], out)):
+                cur[nm] = text
+                for n2, t2 in cur.items():
+                    open(os.path.join(d, n2), "w", encoding="utf-8", newline="").write(t2)
+                rc, so, se = run(binp, ["check"] + sorted(cur), d)
+                plain = ANSI.sub("", so + se)
+                want = sorted([code, int(l) - 1, int(col) - 1] for code, f_, l, col in re.findall(r"error\[(P\d{4})\][^\n]*\n\s*┌─ ([^\n:]*):(\d+):(\d+)", plain) if os.path.basename(f_) == nm)
+                got = None if o.get("publish") is None else sorted([x[0], x[1], x[2]] for x in o["publish"]["diags"])
+                obs["steps"].append({"step": i, "document": nm, "published": got, "check": want})
+                if got is None:
+                    obs["inconclusive"] = "timeout waiting for the server"
+                    obs["mismatches"] = []
+                    return False, obs
+                if got != want:
+                    bad.append("step %d (%s): published %s, `check` on the current contents reports %s" % (i, nm, got, want))
+                if o["publish"].get("version") != i + 1:
+                    bad.append("step %d: published version %s, the notification carried %d" % (i, o["publish"].get("version"), i + 1))
+        elif kind == "golden":
             # regression against the vetted baseline: the output of `ironplcc <cmd>` for every program of the corpus must be what
             # it was on the tree whose units verified (specs/golden/<cmd>/<name>.txt, written by `tools/witness.py --regolden`)
             import bounded
